@@ -51,6 +51,7 @@ type attemptLog struct {
 	outcome string // "2xx", "503", "400", "neterr"
 	flush   int    // trigger count when the attempt started
 	header  map[string]string
+	at      time.Time
 }
 
 type rigT struct {
@@ -196,7 +197,7 @@ func newRig(t vt.TB, c config) *rigT {
 			}
 		}
 		r.mu.Lock()
-		r.log = append(r.log, attemptLog{att: a, body: key, outcome: o, flush: fl, header: hdr})
+		r.log = append(r.log, attemptLog{att: a, body: key, outcome: o, flush: fl, header: hdr, at: time.Now()})
 		r.mu.Unlock()
 		if slow {
 			time.Sleep(20 * time.Millisecond)
@@ -287,6 +288,13 @@ type piece struct {
 var uniq int64
 
 var flushPatienceMs int64 = 30000
+
+// the retry window the rig configures, and how much earlier than that the last attempt of a given-up body may have started
+// (the window runs from the creation of the back-off, a moment before the first attempt is logged)
+const retryWindow, windowSlack = 2 * time.Second, 100 * time.Millisecond
+
+// refusedThroughout: this case has a body the upstream refuses for its whole retry window
+var refusedThroughout bool
 
 // uniqueMap builds a map whose datapoints are globally unique (timer values, set members) or carry unique mass (counters).
 func uniqueMap(t *rapid.T, headerTags bool, bits map[string]uint) *gostatsd.MetricMap {
@@ -417,6 +425,16 @@ func runForwarder(t *testing.T, faults bool) {
 				}
 				scripts[idx] = s
 			}
+			// one fault case in six with retries: a body the upstream refuses for the whole retry window (2 s of real time, the
+			// back-off runs on the real clock). It is re-sent until the window is used up, then given up and counted as dropped
+			if c.retries && rapid.IntRange(0, 5).Draw(t, "refused-for-the-whole-window") == 3 {
+				idx := rapid.IntRange(1, 4).Draw(t, "refused-body")
+				scripts[idx] = nil
+				for j := 0; j < 40; j++ {
+					scripts[idx] = append(scripts[idx], "503")
+				}
+				alwaysFail[idx] = true
+			}
 			if rapid.IntRange(0, 3).Draw(t, "slow") == 0 {
 				scripts[rapid.IntRange(1, 6).Draw(t, "slow-body")] = []string{"slow"}
 			}
@@ -436,7 +454,7 @@ func runForwarder(t *testing.T, faults bool) {
 			return "2xx"
 		}
 		r.mu.Unlock()
-		_ = alwaysFail
+		refusedThroughout = len(alwaysFail) > 0
 		defer func() {
 			r.cancel()
 			select {
@@ -676,11 +694,19 @@ func settle(r *rigT, c config) {
 	}
 	for deadline := time.Now().Add(10 * time.Second); time.Now().Before(deadline); time.Sleep(time.Millisecond) {
 		last := map[string]string{}
+		first, latest := map[string]time.Time{}, map[string]time.Time{}
 		for _, l := range r.snapshot() {
 			last[l.body] = l.outcome
+			if _, ok := first[l.body]; !ok {
+				first[l.body] = l.at
+			}
+			latest[l.body] = l.at
 		}
 		pending := false
-		for _, o := range last {
+		for b, o := range last {
+			if o != "2xx" && refusedThroughout && latest[b].Sub(first[b]) >= retryWindow-windowSlack && time.Since(latest[b]) > 1500*time.Millisecond {
+				continue // refused throughout its window, and no further attempt for longer than any back-off inside it: given up
+			}
 			pending = pending || o != "2xx"
 		}
 		if !pending {
@@ -728,6 +754,8 @@ func judge(t vt.TB, r *rigT, c config, before, concurrent []model.Agg, all model
 	// per distinct body: attempts in order, first flush, content, headers
 	type bodyInfo struct {
 		outcomes []string
+		first    time.Time
+		latest   time.Time
 		flush    int
 		agg      model.Agg
 		header   map[string]string
@@ -750,6 +778,10 @@ func judge(t vt.TB, r *rigT, c config, before, concurrent []model.Agg, all model
 			fail("C15:resent-after-success", "a byte-identical body was sent again after it had been acknowledged (attempt outcomes %v then another attempt)", b.outcomes)
 		}
 		b.outcomes = append(b.outcomes, l.outcome)
+		if b.first.IsZero() {
+			b.first = l.at
+		}
+		b.latest = l.at
 	}
 	// (1) conservation: no datapoint in two distinct bodies, union of final bodies == everything dispatched
 	union := model.Agg{}
@@ -762,8 +794,9 @@ func judge(t vt.TB, r *rigT, c config, before, concurrent []model.Agg, all model
 			sent++
 		} else {
 			dropped++
-			if c.retries {
-				fail("C15:abandoned-inside-window", "a body was given up after outcomes %v although the retry window (2s) was not exhausted", b.outcomes)
+			// with retries a body is given up only after an attempt that failed when the window (2 s since its first attempt) was over
+			if c.retries && b.latest.Sub(b.first) < retryWindow-windowSlack {
+				fail("C15:abandoned-inside-window", "a body was given up after outcomes %v, %v after its first attempt, although the retry window (2s) was not exhausted", b.outcomes, b.latest.Sub(b.first))
 			}
 		}
 		for key, s := range b.agg {
